@@ -8,7 +8,8 @@ THEOREMS = ["Cspuz.C08.C08_not_adjacent_graph", "Cspuz.C08.C08_not_adjacent_grid
 def correspond(ctx):
     ctx.extra["rule"] = ("grids up to 5x5 (incl. 1xN, Nx1) and random graphs n<=6; is_active as variables/negations/compound "
                          "expressions; programs emitted by the real active_vertices_not_adjacent and "
-                         "active_vertices_not_adjacent_and_not_segmenting vs the Lean model's programs")
+                         "active_vertices_not_adjacent_and_not_segmenting vs the Lean model's programs"
+                         " + a handful of deterministic medium / LARGE instances per family (graphs.big_graphs: 40, 70 and 258..319 vertices -- vertex ids beyond CPython's small-int cache, more than 32 / 64 vertices --, boards up to 16x17); about half of the Graph objects are observed part-way through construction (accessors read, every graph constraint posted once on a throw-away Solver) before the remaining edges are added")
     graphcorr.run_cases(ctx, graphcorr.case_nadj, ctx.n(300, 4000), "nadj", bigs=graphcorr.graph_bigs() + graphcorr.grid_bigs())
     graphcorr.run_cases(ctx, graphcorr.case_nseg, ctx.n(300, 4000), "nseg", bigs=graphcorr.graph_bigs() + graphcorr.grid_bigs())
     if not ctx.quick():
@@ -198,6 +199,20 @@ def search(ctx, why, maxcells=None):
                 "nseg-grid:2d",
                 f"active_vertices_not_adjacent_and_not_segmenting on a {h}x{w} BoolArray2D, pattern {bad[0]}: satisfiable={bad[1]} "
                 f"but the graph definition gives {bad[2]}", {"h": h, "w": w, "pattern": bad[0], "kind": "nseg-big"})
+    for (n, edges) in graphs.small_graphs(ctx.rng, ctx.n(20, 40), 5):
+        if any(a == b for a, b in edges):
+            continue
+        bad = _check_nadj(n, edges)
+        if bad and "nadj-graph" not in found:
+            found["nadj-graph"] = Finding("nadj-graph", f"active_vertices_not_adjacent on n={n} edges={edges}, pattern {bad[0]}: sat={bad[1]} expected {bad[2]}" + graphs.history_note(n, edges),
+                                          {"n": n, "edges": edges, "pattern": bad[0], "kind": "nadj-graph"})
+        try:
+            bad = _check_nseg_graph(n, edges)
+        except Exception as e:
+            bad = ("exception", core.err_name(e), str(e)[:200])
+        if bad and "nseg-graph" not in found:
+            found["nseg-graph"] = Finding("nseg-graph", f"not_adjacent_and_not_segmenting (graph form) on n={n} edges={edges}, pattern {bad[0]}: sat={bad[1]} expected {bad[2]}" + graphs.history_note(n, edges),
+                                          {"n": n, "edges": edges, "pattern": bad[0], "kind": "nseg-graph"})
     # medium / LARGE graphs (vertex ids >= 257): single vertices, cut vertices, adjacent pairs at both ends of the index range
     for (n, edges) in graphs.big_graphs():
         for seg in (False, True):
@@ -214,22 +229,8 @@ def search(ctx, why, maxcells=None):
                     ("nseg" if seg else "nadj") + "-graph:large",
                     f"active_vertices_not_adjacent{'_and_not_segmenting' if seg else ''} (graph form) on a graph with {n} vertices and {len(edges)} "
                     f"edges (edges {edges[:4]} ... {edges[-6:]}), active vertices ({bad[0]}) = "
-                    f"{bad[1] if bad[1] is None or len(bad[1]) <= 16 else str(bad[1][:8]) + ' ... ' + str(bad[1][-8:])}: satisfiable={bad[2]} expected {bad[3]}",
+                    f"{bad[1] if bad[1] is None or len(bad[1]) <= 16 else str(bad[1][:8]) + ' ... ' + str(bad[1][-8:])}: satisfiable={bad[2]} expected {bad[3]}" + graphs.history_note(n, edges),
                     {"kind": "big-graph", "n": n, "edges": edges, "seg": seg, "pattern_name": bad[0], "active": bad[1]})
-    for (n, edges) in graphs.small_graphs(ctx.rng, ctx.n(20, 40), 5):
-        if any(a == b for a, b in edges):
-            continue
-        bad = _check_nadj(n, edges)
-        if bad and "nadj-graph" not in found:
-            found["nadj-graph"] = Finding("nadj-graph", f"active_vertices_not_adjacent on n={n} edges={edges}, pattern {bad[0]}: sat={bad[1]} expected {bad[2]}" + graphs.history_note(n, edges),
-                                          {"n": n, "edges": edges, "pattern": bad[0], "kind": "nadj-graph"})
-        try:
-            bad = _check_nseg_graph(n, edges)
-        except Exception as e:
-            bad = ("exception", core.err_name(e), str(e)[:200])
-        if bad and "nseg-graph" not in found:
-            found["nseg-graph"] = Finding("nseg-graph", f"not_adjacent_and_not_segmenting (graph form) on n={n} edges={edges}, pattern {bad[0]}: sat={bad[1]} expected {bad[2]}" + graphs.history_note(n, edges),
-                                          {"n": n, "edges": edges, "pattern": bad[0], "kind": "nseg-graph"})
     return list(found.values())
 
 
